@@ -3,19 +3,13 @@ package main
 import (
 	"fmt"
 
-	bcrpb "github.com/google/fhir/go/proto/google/fhir/proto/r4/core/resources/bundle_and_contained_resource_go_proto"
-	"github.com/verily-src/fhirpath-go/fhirpath/patch"
 	"github.com/verily-src/fhirpath-go/fhirpath/verifh/core"
 	"github.com/verily-src/fhirpath-go/fhirpath/verifh/lib"
-	"github.com/verily-src/fhirpath-go/internal/fhir"
 )
 
 func main() {
-	b := &bcrpb.Bundle{Entry: []*bcrpb.Bundle_Entry{{Resource: &bcrpb.ContainedResource{}}, {}}}
-	for _, src := range []string{"Bundle.entry.resource", "Bundle.entry.resource.id", "Bundle.descendants()", "Bundle.entry.resource is Patient", "Bundle.entry.children()"} {
-		r := lib.Run(src, []fhir.Resource{b}, nil)
-		fmt.Println(src, "=>", core.Short(r.String(), 200))
+	for _, src := range []string{"@2020-01-01 + 110000 days", "@2020-01-01 + 20000 weeks", "@2020-01-01T00:00:00Z + 110000 days", "@2020-01-01T00:00:00Z + 3000000 hours", "@2020-01-01T00:00:00Z + 200000000 minutes", "@2020-01-01T00:00:00Z + 2147483647 seconds", "@2020-01-01T00:00:00Z + 9999999999 seconds", "@2020-01-01T00:00:00.000Z + 9999999999999999 milliseconds", "@2020-01-01 + 9000 years", "@2020-01-01 + 2147483647 years", "@2020-01-01 + 99999999999 days", "@T10:00 + 3000000 hours", "@T10:00 + 9999999999999 seconds", "@2020-01-01 - 3000 years", "@2020-01-01T00:00:00Z - 3000000 hours"} {
+		r := lib.Run(src, nil, nil)
+		fmt.Println(src, "=>", core.Short(r.String(), 160))
 	}
-	pi := core.Try(func() { fmt.Println(patch.Delete(b, "Bundle.entry[0].resource.id")) })
-	fmt.Println("patch:", pi)
 }
